@@ -232,7 +232,7 @@ impl Property for C19 {
         let nframes = if with_error { r.below(6) } else { r.range(1, 6) };
         let frames: Vec<AFrame> = (0..nframes).map(|_| gen_frame(&mut r)).collect();
         let error = if with_error { Some(gen::gen_error(&mut r, nframes as u64)) } else { None };
-        let resp = AResponse { frames: frames.clone(), error: error.clone(), form: Form::List };
+        let resp = AResponse { frames: frames.clone(), error: error.clone(), form: Form::List, partial: if error.is_some() && r.chance(1, 4) { Some(gen::gen_partial(&mut r)) } else { None } };
         let bytes = resp.encode();
         let real = match parse_all(&bytes) {
             Ok(mut v) if v.len() == 1 => v.pop().unwrap(),
